@@ -206,11 +206,12 @@ class UserNode:
     def alive(self):
         return self.run_task is not None and not self.run_task.done()
 
-    async def stop_cancel(self, timeout=300.0):
+    async def stop_cancel(self, timeout=300.0, cancel=True):
         """Orderly stop as a cancellation of run() (finally: shutdown())."""
         if self.run_task is None:
             return True
-        self.run_task.cancel()
+        if cancel:
+            self.run_task.cancel()
         done, pend = await asyncio.wait({self.run_task}, timeout=timeout)
         ok = bool(done)
         self.server = None
